@@ -139,6 +139,11 @@ struct Arena {
 		size_t lo = off > 4096 ? off - 4096 : 0;
 		checkCanary(lo, off + size + 4096, "at Deallocate");
 	}
+	// after a reported leak: hand the leaked memory back to the arena so that later checks stay meaningful
+	void forgetAll() {
+		for (auto& kv : live) { fillRaw(kv.first, kv.second, true); VF_POISON(mem + kv.first, kv.second); }
+		live.clear();
+	}
 	std::string takeEvents() {
 		std::string s;
 		for (auto& e : events) { if (!s.empty()) s += ' '; s += e; }
@@ -302,7 +307,7 @@ static void layoutConfig(Ctx& c, Rng& rng, Suite& s, size_t reqSize, size_t A, s
 			if ((uintptr_t)blk % A != 0) c.fail("C09 alignment: single block S=%zu A=%zu base=arena+%zu block at arena+%lld", S, A, baseOff, b);
 			if (b < (long long)baseOff || b + (long long)S + 2 > (long long)(baseOff + size))
 				c.fail("C09 inside: single block S=%zu A=%zu base=arena+%zu block [%lld,%lld)+2 leaves [%zu,%zu)", S, A, baseOff, b, b + (long long)S, baseOff, baseOff + size);
-			if ((long long)off16 != b - (long long)baseOff) c.fail("C09 layout: single block S=%zu A=%zu base=arena+%zu stored offset %u != %lld", S, A, baseOff, (unsigned)off16, b - (long long)baseOff);
+			// (the stored offset itself is representation, compared with the model only: the nb1 answer line)
 			s.op(fmt("nb1 %zu", baseOff)); s.res(fmt("%lld %u", b, (unsigned)off16));
 			pool.pvDeleteBlock1(blk);
 			std::string ev = ar.takeEvents();
@@ -319,6 +324,7 @@ static void layoutConfig(Ctx& c, Rng& rng, Suite& s, size_t reqSize, size_t A, s
 			pool.Deallocate(blk);
 			ar.takeEvents();
 		}
+		if (!ar.live.empty()) ar.forgetAll();	// a wrong Deallocate was reported above; keep the arena usable
 		c.stats.evaluations++;
 		c.stats.nontrivial(fmt("%zu/%zu/%zu/%zu", S, A, N, r % period));
 	}
@@ -331,7 +337,7 @@ static void layoutConfig(Ctx& c, Rng& rng, Suite& s, size_t reqSize, size_t A, s
 			s.op(fmt("blk %lld", ar.rel((void*)a))); s.res(fmt("%d %lld", (int)idx2, ar.rel(buf2)));
 			c.stats.evaluations++;
 		}
-	if (!ar.live.empty()) { c.fail("C09 ledger: layout suite S=%zu A=%zu N=%zu left %zu allocations", S, A, N, ar.live.size()); ar.live.clear(); }
+	if (!ar.live.empty()) { c.fail("C09 ledger: layout suite S=%zu A=%zu N=%zu left %zu allocations", S, A, N, ar.live.size()); ar.forgetAll(); }
 	if (c.stats.samples.size() < 3) c.stats.sample(fmt("layout S=%zu A=%zu N=%zu: %zu base residues from arena+%zu", S, A, N, residues.size(), r0));
 }
 
@@ -480,7 +486,7 @@ static void runDll(Ctx& c, Rng& rng)
 		a.mData.allocCount = 0; b.mData.allocCount = 0;
 		if (a.mFreeBufferHead != nullptr) a.DeallocateAll();
 		ar.takeEvents();
-		if (!ar.live.empty()) { c.fail("C09 returned: dll round '%s' left %zu buffers with the manager", desc.c_str(), ar.live.size()); ar.live.clear(); }
+		if (!ar.live.empty()) { c.fail("C09 returned: dll round '%s' left %zu buffers with the manager", desc.c_str(), ar.live.size()); ar.forgetAll(); }
 	}
 	ar.checkCanary(0, 4096 + 70 * 256, "end of the dll suite");
 }
@@ -814,8 +820,7 @@ struct History {
 		// property level: everything has been given back
 		if (!ar.live.empty()) {
 			c.fail("C09 returned: %s after all pools were destroyed the manager still holds %zu allocations (first arena+%zu)", cfgName.c_str(), ar.live.size(), ar.live.begin()->first);
-			for (auto& kv : ar.live) { ar.fillRaw(kv.first, kv.second, true); VF_POISON(ar.mem + kv.first, kv.second); }
-			ar.live.clear();
+			ar.forgetAll();
 		}
 		ar.checkCanary(0, window + 2 * bufSize + 8192, "end of history");
 		if (hs.maxBuffers >= 2 && hs.buffersFreed >= 1) c.stats.count("state.histories_nontrivial");
@@ -867,8 +872,8 @@ static void runStateN(Ctx& c, Rng& rng, Suite& s, unsigned count, unsigned lengt
 static void runState(Ctx& c, Rng& rng)
 {
 	Suite s(c, "state", fmt("model pool arena=%llu", (unsigned long long)(uintptr_t)g_arena.mem));
-	const unsigned count = c.thorough ? 14 : 3;
-	const unsigned length = c.thorough ? 700 : 260;
+	const unsigned count = c.thorough ? 16 : 5;
+	const unsigned length = c.thorough ? 700 : 300;
 #if C09_PART == 0 || C09_PART == 2
 	runStateN<1>(c, rng, s, count, length);
 	runStateN<2>(c, rng, s, count, length);
